@@ -110,8 +110,35 @@ class C06(Prop):
             for key in ("server_max_window_bits", "client_max_window_bits"):
                 for val in ("7", "16", "0", "-8", "abc", "", "15.0", "1e1", "99999999999999999999", "{0}", "%s", "{x!r}"):
                     yield {"invalid": "permessage-deflate; %s=%s" % (key, val)}
+        # "every message the client sends compressed is restored exactly" also when SEVERAL threads send: a scheduled
+        # stage (the deterministic scheduler and oracle of C11; every thread order x every single preemption, plus an
+        # early first preemption x every second one) with and without client_no_context_takeover
+        from props import c11
+
+        class _Sched(c11.C11):
+            id = "C06"
+
+            def scenarios(self_inner):
+                names = ("2x1_text_deflate", "2x1_text_deflate_nct", "2x2_deflate_nct", "2x1_text_binary_deflate",
+                         "mixed_compress_flags")
+                return {n: c11.SCENARIOS[n] for n in names}
+
+            def bound2(self_inner):
+                return []
+
+            def first_use(self_inner):
+                return ["2x1_text_deflate_nct"]
+        self._sched = _Sched()
+
+        def scheduled(i):
+            def make():
+                for c in self._sched.enumerations(tier)[i].make():
+                    yield dict(c, sched=True)
+            return make
         return [Enumeration("all_256_configurations_x_battery", battery, exhaustive=True),
-                Enumeration("invalid_parameters", invalid, exhaustive=True)]
+                Enumeration("invalid_parameters", invalid, exhaustive=True),
+                Enumeration("concurrent_compressed_senders_single_preemptions", scheduled(0), exhaustive=True),
+                Enumeration("concurrent_compressed_senders_first_use_races", scheduled(1), exhaustive=True)]
 
     BATTERY = [
         # repeats across messages in both directions, text and binary, a fragmented compressed message
@@ -165,6 +192,12 @@ class C06(Prop):
 
     # ------------------------------------------------------------------
     def run_case(self, case):
+        if case.get("sched"):
+            if not hasattr(self, "_sched"):
+                self.enumerations("quick")
+            inner = dict(case)
+            inner.pop("sched")
+            return self._sched.run_case(inner)
         if "invalid" in case:
             return self.run_invalid(case)
         if "battery" in case:
